@@ -109,6 +109,8 @@ def run(tier, seed):
         for i, kind in enumerate(kinds_):
             pos = [rng.uniform(0.03, 0.97) for _ in range(3)]
             adp = rng.uniform(0.005, 0.05) if kind == "Uiso" else (S.random_uani(rng, met, c) if kind == "Uani" else 0.0)
+            if kind == "Uani" and (len(todo) + i) % 3 == 0:
+                adp = [rng.uniform(0.004, 0.03), rng.uniform(0.004, 0.03), rng.uniform(0.004, 0.03), 0.0, 0.0, 0.0]      # no cross terms: still a tensor
             spec.append(("A%d" % i, rng.choice(S.ELEMENTS), pos, kind, adp, rng.uniform(0.2, 1.0), t["nsymop"]))
         nops = len(x["ops"])
         ks = list(range(nops))
